@@ -68,6 +68,11 @@ def run(chk):
         writers = {"Crystal.to_poscar_string", "Crystal.to_cif_data", "Crystal.to_cif_string", "Crystal.to_cif_file", "Crystal.to_shelx_string",
                    "Crystal.to_shelx_file", "Crystal.save", "Crystal.to_poscar_file", "poscar_string", "to_res_contents"}
         inherit(chk, "R10.11", "c14", ["R14.3"], functions=writers)
+    chk.rule("R10.14", "the CIF that is written describes the crystal as it is now: when the dictionary of the file the crystal was read from is "
+                       "reused, every item the reader takes the structure from (cell, operations, atom sites) is refreshed (= C14 R14.5, key clauses)", 8)
+    if chk.want("R10.14"):
+        from ..inherit import inherit
+        inherit(chk, "R10.14", "c14", ["R14.5"], fingerprints=lambda fp: fp.startswith("cif:"))
     chk.assume("numeric equality 'to the written precision' and parsing of arbitrary label strings are not decided")
     chk.assume("the SHELX writer does not carry occupancies (the format clause 'where the format carries them')")
     chk.assume("LATT/SYMM soundness is C02 (R02.3-R02.5); CIF text round trip is C15; symmetry-operation strings are C11 (R11.7)")
@@ -360,7 +365,14 @@ def r10_2(chk, repo, cr):
     chk.ob("R10.2", CR, wq, "the occupancy of every site is written as the sixth field of its atom line (the reader takes token 5 as the occupancy)",
            okocc, fingerprint="res-occupancy", expected="'{label} {sfac} {x} {y} {z} {occupancy}'", found=tmpl)
     sf = [e for e in wev.events if e.kind == "assign" and e.name == "atom_sfac"]
-    okplus = bool(sf) and "1 + " in sf[0].value.key() and ".index(" in sf[0].value.key()
+    okplus = False
+    if sf:
+        # [sfac.index(x) + 1 for x in site_atoms]: the element's position in the SFAC list, counted from one
+        ca0 = sf[0].value.as_atom()
+        elt0 = ca0[2] if ca0 and ca0[0] == "comp" and ca0[1] in ("ListComp", "GeneratorExp") and len(ca0) == 4 else None
+        if elt0 is not None:
+            ix = [a for a in find_atoms(elt0, lambda a: a[0] == "call" and call_name(a) == ".index" and len(a[2]) == 1)]
+            okplus = len(ix) == 1 and elt0 == P.atom(ix[0]) + 1 and "site_atoms" in ix[0][2][0].key()
     if sf and not okplus:
         # a lookup table {element: position + 1 for position, element in enumerate(sfac)} indexed by the atom's element
         ca = sf[0].value.as_atom()
